@@ -43,8 +43,8 @@ PROFILE = {
     'max_pods': 3, 'max_racks': 3,
     'weights': {'app': 10, 'down': 4, 'up': 3, 'rmsrv': 3, 'readd': 3,
                 'rm': 4, 'strat': 3, 'srv': 2, 'freeze': 2, 'unfreeze': 3,
-                'freezework': 3, 'orphanrm': 3, 'idg': 2},
-    'force': ['rm', 'freezework', 'orphanrm'],
+                'freezework': 3, 'orphanrm': 3, 'idg': 2, 'rackshift': 3},
+    'force': ['rm', 'freezework', 'orphanrm', 'rackshift'],
     'max_ops': 30,
 }
 E2_PROFILE = {
@@ -82,6 +82,49 @@ def strategy_case(draw):
 
 def strategy(tier):
     return strategy_case()
+
+
+def _aggregate_hint(sim, lifetime_share=False):
+    """Where an ancestor's aggregate (free capacity, reboot time, traits,
+    partition labels) looks smaller than what an up server below it offers,
+    return ('kind', server name): the probe is then *aimed* at that server.
+    The scheduler's internals are read only to choose the probe; whether the
+    probe fits is still decided by ground truth recomputed from the leaves,
+    so a wrong or missing hint costs coverage, never soundness."""
+    try:
+        servers = sim.servers()
+        found = {}
+        for sname in sorted(servers):
+            srv = servers[sname]
+            if srv.state is not scheduler.State.up or \
+                    sname not in sim.decl_servers:
+                continue
+            node = srv.parent
+            while node is not None:
+                free = getattr(node, 'free_capacity', None)
+                if free is not None and any(
+                        free[dim] < srv.free_capacity[dim]
+                        for dim in range(3)):
+                    found.setdefault('capacity', sname)
+                mine = srv.traits.self_traits
+                if mine and not node.traits.has(mine):
+                    found.setdefault('traits', sname)
+                if not set(srv.labels) <= set(node.labels):
+                    found.setdefault('label', sname)
+                if srv.valid_until and node.valid_until < srv.valid_until:
+                    found.setdefault('lifetime', sname)
+                node = node.parent
+        for kind in ('capacity', 'traits', 'label'):
+            if kind in found:
+                return (kind, found[kind])
+        # the reboot-time aggregate of this snapshot's buckets is refreshed
+        # on membership changes only and is not used for pruning: stale
+        # values are the rule, so this hint takes a share of the aimed probes
+        if 'lifetime' in found and lifetime_share:
+            return ('lifetime', found['lifetime'])
+    except Exception:  # pylint: disable=broad-except
+        return ('error', None)
+    return None
 
 
 def _placement(sim):
@@ -149,12 +192,34 @@ def execute(case, stats):
             return False
         crashes = getattr(sim, 'master_crashes', 0)
         probe_op = list(case['probe'])
-        if case.get('probe_fit') is not None:
+        hint = _aggregate_hint(
+            sim, (case.get('probe_fit') or 1) % 4 == 0)
+        if hint is not None:
+            stats.count('aggregate_hint:' + hint[0])
+        aimed = case.get('probe_fit')
+        if hint is not None and hint[1] is not None:
+            aimed = 0
+        if aimed is not None:
             ups = sorted(
                 (n, srv) for n, srv in sim.servers().items()
                 if srv.state is scheduler.State.up and n in sim.decl_servers)
+            if hint is not None and hint[1] is not None:
+                ups = [(n, srv) for n, srv in ups if n == hint[1]]
             if ups:
-                sname, srv = ups[case['probe_fit'] % len(ups)]
+                sname, srv = ups[aimed % len(ups)]
+                if hint is not None and not e2:
+                    # make the probe as undemanding as the hinted server
+                    # allows: default allocation of its partition, no group,
+                    # the traits / lease the hint is about
+                    sdecl = sim.decl_servers[sname]
+                    probe_op[1] = int(sdecl['label'][4:])
+                    probe_op[7] = None
+                    probe_op[8] = sdecl['traits'] if hint[0] == 'traits' \
+                        else 0
+                    probe_op[5] = 0
+                    if hint[0] == 'lifetime':
+                        left = int(srv.valid_until - sim.clock.peek()) - 60
+                        probe_op[5] = max(0, left)
                 room = list(sim.decl_servers[sname]['cap'])
                 for other in srv.apps:
                     for dim in range(3):
